@@ -38,7 +38,7 @@ META = {
 
 def units(tier):
     rng = random.Random(seed())
-    specs, _ = small_specs(tier, rng, allow_cyclic=False, nrand_quick=100, nrand_thorough=1000)
+    specs, _ = small_specs(tier, rng, allow_cyclic=False, nrand_quick=60, nrand_thorough=500, chains_quick=30, chains_thorough=300, fixed_quick=150, fixed_thorough=1500)
     maxtok = 4 if tier == "quick" else 5
     return [{"specs": [s.to_json() for s in ch], "maxtok": maxtok, "seed": seed() * 1000 + i}
             for i, ch in enumerate(chunks(specs, 48))]
